@@ -376,7 +376,7 @@ class SolverWrapper:
         self.add_constraint(product_var <= continuous_var - lb * (1 - binary_var), name=name + "_c")
         self.add_constraint(product_var >= continuous_var - ub * (1 - binary_var), name=name + "_d")
 
-    def add_integer_continuous_product_constraint(self, integer_var, continuous_var, product_var, lb, ub, name: str):
+    def add_integer_continuous_product_constraint(self, integer_var, continuous_var, product_var, lb, ub, name: str, integer_ub=None):
         """
         This function adds constraints to model the equality:
             integer_var * continuous_var = product_var
@@ -400,9 +400,12 @@ class SolverWrapper:
             The lower and upper bounds of the continuous variable.
         name : str
             The name of the constraint
+        integer_ub : float, optional
+            Upper bound of the integer variable. By default it is taken to be `ub`, which is correct
+            only if the continuous variable is at least 1 whenever the integer variable is not 0.
         """
 
-        num_bits = ceil(log2(ub + 1))
+        num_bits = ceil(log2((ub if integer_ub is None else integer_ub) + 1))
         bits = list(range(num_bits))
 
         binary_vars = self.add_variables(
